@@ -982,7 +982,7 @@ def write_changed_genotypes(gtchange_list_filename, changed_genotypes, append=Fa
             print(
                 changed_genotype.sample,
                 changed_genotype.chromosome,
-                changed_genotype.variant.position,
+                changed_genotype.variant.position + 1,
                 changed_genotype.variant.reference_allele,
                 changed_genotype.variant.alternative_allele,
                 repr(changed_genotype.old_gt),
